@@ -39,6 +39,7 @@ type Runner struct {
 	Workers int
 	Skip    func(o *govc.Oblig) bool // obligations not attempted (recorded as undecided / not selected)
 	candBudget time.Duration
+	Cheap      func(o *govc.Oblig) bool // obligations solved with a tenth of the budget (recorded known findings in the quick tier)
 }
 
 func (r *Runner) solveAll(obs []*govc.Oblig) []*OblResult {
@@ -70,11 +71,16 @@ func (r *Runner) solveAll(obs []*govc.Oblig) []*OblResult {
 				return
 			}
 			if o.Cand >= 0 {
-				b := 2 * time.Second
+				b := 20 * time.Second // wall; the candidate rlimit decides
 				if r.candBudget > 0 {
-					b = r.candBudget
+					b = 30 * time.Second
 				}
 				out[i] = &OblResult{O: o, R: r.Solver.CheckBudget(q, b), Query: q}
+				return
+			}
+			if r.Cheap != nil && r.Cheap(o) {
+				cs := &smt.Solver{Timeout: 20 * time.Second, RLimit: r.Solver.RLimit / 10, Stats: map[string]int{}}
+				out[i] = &OblResult{O: o, R: cs.Check(q), Query: q}
 				return
 			}
 			out[i] = &OblResult{O: o, R: r.Solver.Check(q), Query: q}
